@@ -33,7 +33,7 @@ type LedgerEntry struct {
 	Ms      int64  `json:"ms"`
 }
 
-var k1Kinds = map[string]bool{"bounds": true, "slice": true, "nil": true, "assert": true, "div": true, "shift": true, "nilmap": true, "make": true, "repeat": true, "panic": true}
+var k1Kinds = map[string]bool{"bounds": true, "slice": true, "nil": true, "assert": true, "div": true, "shift": true, "nilmap": true, "make": true, "repeat": true, "panic": true, "lock": true}
 
 func loadLedger(path string) *Ledger {
 	l := &Ledger{Props: map[string]*LedgerProp{}}
